@@ -450,6 +450,8 @@ where
                 A::default_or_panic(),
             ),
             ChunkClass::NonDummy(mut chunk) => {
+                let original_chunk = chunk;
+
                 while let Some(next_chunk) = chunk.next() {
                     chunk = next_chunk;
 
@@ -464,7 +466,11 @@ where
                 }
 
                 // there is no chunk that fits, we need a new chunk
-                chunk.append_for(*layout)
+                chunk.append_for(*layout).inspect_err(|_| {
+                    // A prepared allocation (like that of a `MutBumpVec`) may still live in the original chunk
+                    // and will be committed there, so on failure the original chunk must remain the current one.
+                    self.chunk.set(original_chunk.raw);
+                })
             }
         }?;
 
